@@ -72,7 +72,7 @@ CLAIMED = {
 
 # dimensions added in later rounds (the counts in the texts above are those of the first complete version)
 LATER = {
- "C01": "Later additions: forged kinds r / s / t0 / t1 / x (signed extra members, tampered copies, cross-type replay), chains through recovers that re-commit to used commitments, every single protocol-version lookup of a resolution failing in turn (short chains on valid / invalid creates x every forged operation).",
+ "C01": "Later additions: forged kinds r / s / t0 / t1 / x / v (signed extra members, tampered copies, cross-type replay, a legitimate update's signed data verbatim next to another delta), chains through recovers that re-commit to used commitments, every single protocol-version lookup of a resolution failing in turn (short chains on valid / invalid creates x every forged operation).",
  "C02": "Later additions: three- and four-way competitions, refused competitors carrying the genuine next commitment, version-id agreement across store orders, operations delivered by the caller instead of the store, a stored create the applier refuses, histories of 13 / 16 operations, a hostile second protocol version.",
  "C03": "Later additions: phases under a hostile second protocol version (V), with signed windows longer than the delta (W), with an operation of unknown protocol version (X), with every single version lookup failing in turn (K), on full-width uint64 coordinates (Z); one processor instance resolving twice; updates with two defects at once.",
  "C04": "Later additions: unpublished extensions stamped earlier than the anchored operations, recover states compared with the reference, recovers re-committing to used update commitments (published / unpublished, also on full-width coordinates), operations of the deactivated history supplied by the caller, a created document that also carries an alias and a foreign member (recover leaves nothing of them), two protocol versions.",
